@@ -175,9 +175,10 @@ def tree_depth(f):
 # ------------------------------------------------------------------------------------------------
 # spec construction and the real System
 # ------------------------------------------------------------------------------------------------
-def spec_from_forest(forest, pal=0, pol=1, srs=0.0, src_vo=None, name="t"):
+def spec_from_forest(forest, pal=0, pol=1, srs=0.0, src_vo=None, name="t", extra=None):
     """One source 'S' feeding the forest; names are <letter><preorder counter>."""
-    L = letters(pal)
+    L = dict(letters(pal))
+    L.update(extra or {})
     V = PALETTES[pal]["V"] if src_vo is None else src_vo
     comps = [dict(n="S", k="Source", a=dict(vo=V * pol, rs=srs), p=[], g="", r="", pc=None, lim=None)]
     cnt = [0]
@@ -449,3 +450,79 @@ def with_phases(spec, phases, assign):
         if assign.get(c["n"]) is not None:
             c["pc"] = assign[c["n"]]
     return sp
+
+
+# ------------------------------------------------------------------------------------------------
+# reference steady-state solver (damped Gauss-Seidel on the reference laws); used for family membership only
+# ------------------------------------------------------------------------------------------------
+SERIES = ("Source", "RLoss", "VLoss", "PSwitch", "PMux", "Rectifier")
+
+
+def refsolve(spec, ph="", iters=4000, damp=0.6, tol=1e-13):
+    """Returns (v, i, iout, converged, maxdrop) with v/i dicts by name; maxdrop = largest relative series drop."""
+    d = resolve(spec)
+    order = [c["n"] for c in spec["comps"]]
+    v = {n: 0.0 for n in order}
+    i = {n: 0.0 for n in order}
+    io = {n: 0.0 for n in order}
+    sel = {n: 0 for n in order}
+
+    def feeder(n):
+        ps = d[n]["parents"]
+        if not ps:
+            return None, 0
+        if len(ps) > 1:
+            for j, p in enumerate(ps):
+                if v[p] != 0.0:
+                    return p, j
+            return None, 0
+        return ps[0], 0
+
+    def childsum(n):
+        t = 0.0
+        for c in d[n]["children"]:
+            if len(d[c]["parents"]) > 1 and feeder(c)[0] != n:
+                continue
+            t += i[c]
+        return t
+
+    conv = False
+    try:
+        for it in range(iters):
+            delta = 0.0
+            for n in order:
+                f, j = feeder(n)
+                vin = v[f] if f is not None else 0.0
+                io[n] = childsum(n)
+                vo, _ = law(d[n], vin, io[n], ph, j)
+                nv = v[n] + damp * (vo - v[n]) if it > 0 else vo
+                delta = max(delta, abs(nv - v[n]))
+                v[n] = nv
+            for n in reversed(order):
+                f, j = feeder(n)
+                vin = v[f] if f is not None else 0.0
+                io[n] = childsum(n)
+                _, ii = law(d[n], vin, io[n], ph, j)
+                ni = i[n] + damp * (ii - i[n])
+                delta = max(delta, abs(ni - i[n]))
+                i[n] = ni
+            if not all(math.isfinite(x) for x in list(v.values()) + list(i.values())) or max(map(abs, i.values())) > 1e6:
+                return v, i, io, False, float("inf")
+            if delta < tol:
+                conv = True
+                break
+    except (ZeroDivisionError, OverflowError):
+        return v, i, io, False, float("inf")
+    maxdrop = 0.0
+    for n in order:
+        k = d[n]["k"]
+        if k in SERIES:
+            f, j = feeder(n)
+            vin = abs(d[n]["a"]["vo"]) if k == "Source" else (abs(v[f]) if f is not None else 0.0)
+            if k == "Source" and not active(d[n], ph):
+                continue
+            if vin > 0:
+                if k in ("PSwitch", "PMux") and not active(d[n], ph):
+                    continue
+                maxdrop = max(maxdrop, (vin - abs(v[n])) / vin)
+    return v, i, io, conv, maxdrop
